@@ -188,6 +188,15 @@ pub fn corpus_c18(tier: Tier, seed: u64) -> Vec<Layout> {
     v.extend(sys_lists(Tier::Quick).into_iter().step_by(17));
     v.extend(sys_arrays(Tier::Quick).into_iter().step_by(23));
     v.extend(sys_custom(Tier::Quick).into_iter().step_by(19));
+    // many documented fields (each accessor and builder step must carry documentation), long lists, deep nesting
+    for (k, mut l) in sys_many_fields(Access::RW).into_iter().step_by(3).chain(sys_long_lists().into_iter().step_by(7)).enumerate() {
+        if k % 2 == 0 && !l.fields.iter().any(|f| f.is_array()) {
+            l.debug = true;
+        }
+        v.push(l);
+    }
+    v.extend(sys_deep_nesting(false).into_iter().step_by(2));
+    v.extend(sys_deep_nesting(true).into_iter().skip(1).step_by(2));
     v
 }
 
